@@ -3,7 +3,7 @@
    connection, final cache); check_case re-runs the model and compares. *)
 From Coq Require Import ZArith NArith Bool List Arith.
 Import ListNotations.
-Require Import FV.Base.Util FV.Base.F64 FV.Base.PyVal FV.C01.Model FV.Gen.C05 FV.C05.Model FV.C05.ModelCb.
+Require Import FV.Base.Util FV.Base.F64 FV.Base.PyVal FV.C01.Model FV.Gen.C05 FV.C05.Model FV.C05.ModelCb FV.C05.ModelReq.
 
 Record case := {
   k_general : Z;                                         (* generalConfig.omit_unchanged_within, ticks *)
@@ -22,6 +22,9 @@ Record case := {
   k_regs : list reg;                                     (* addCallback / registerCallbacks calls, in order *)
   k_cbobs : list (list cbkind);                          (* per parameter: what paramCallbacks holds after them *)
   k_cbs : list (list cbs);                               (* per thread, per job: the scripts of the callbacks *)
+  k_marks : list (list nat);                             (* per thread, per job: reply park points that follow the job
+                                                            (read / change request through the dispatcher: 1 when the
+                                                            wrapper returned and a reply is built, else 0) *)
 }.
 
 Definition mk_config (c : case) : config :=
@@ -68,8 +71,9 @@ Definition state0 (c : case) : state :=
 Definition model_run (c : case) : state * bool :=
   let G := mk_config c in
   if k_threaded c then
-    let r := crun G src_flags (cinit (state0 c) (subs0 G) (k_progs c)) (k_sched c) in
-    (cs_st r, cs_ok r && quiescent r)
+    let r := rrun G src_flags (rinit (state0 c) (subs0 G) (k_progs c) (k_marks c)) (k_sched c) in
+    (cs_st (r_cs r), cs_ok (r_cs r) && quiescent (r_cs r) && r_idle r
+                     && list_eqb Nat.eqb (map (@length nat) (k_marks c)) (map (@length job) (k_progs c)))
   else (run_cb G callback_except_class (state0 c) (zip_progs (k_progs c) (k_cbs c)), true).
 
 (* the registrations the model derives are the ones the implementation holds; every script has the shape they
